@@ -32,6 +32,7 @@ type Exp struct {
 	FragEnds  []int  // data message: script offsets just past each of its frames
 	FragHdrEnds []int // offsets just past each data frame's header
 	FragWire  []int  // wire payload bytes per data frame
+	StallHdrEnd int  // >0: the peer stalls forever right after this offset (header of a frame)
 }
 
 type expander struct {
@@ -141,6 +142,21 @@ func ExpandScript(items []SItem, fromClient bool, seed uint64) ([]Seg, []Exp) {
 				}
 				last := i == len(parts)-1
 				before := e.total()
+				if it.StallAtFrag > 0 && i == it.StallAtFrag-1 {
+					// header only, then silence: a reader that waits for the payload hangs
+					mark := len(e.out)
+					e.frame(wsframe.Frame{Fin: last && !it.Open, Rsv1: i == 0 && it.Comp > 0, Opcode: op, Payload: p}, it.KeyMode)
+					e.out = e.out[:len(e.out)-len(p)]
+					_ = mark
+					m := &e.exps[msgIdx]
+					m.Complete = false
+					m.StallHdrEnd = e.total()
+					m.FragEnds = append(m.FragEnds, e.total())
+					m.FragHdrEnds = append(m.FragHdrEnds, e.total())
+					m.FragWire = append(m.FragWire, len(p))
+					e.flush(-1)
+					break
+				}
 				e.frame(wsframe.Frame{Fin: last && !it.Open, Rsv1: i == 0 && it.Comp > 0, Opcode: op, Payload: p}, it.KeyMode)
 				m := &e.exps[msgIdx]
 				m.FragEnds = append(m.FragEnds, e.total())
